@@ -133,6 +133,10 @@ def do_call(reg, handle, method, args, kwargs, store_as):
         elif method == '@iadd':
             p += args[0]
             r = None
+        elif method == '@iter':
+            r = list(iter(p))  # dict proxies hand out an iterator proxy; list proxies are iterated through __getitem__
+        elif method == '@str':
+            r = str(p)  # the referent's repr, fetched through the server's fallback for missing methods
         else:
             r = getattr(p, method)(*resolve_args(reg, args), **(kwargs or {}))
     except BaseException as e:  # noqa: BLE001
